@@ -450,6 +450,16 @@ func (ms *Modules) Process() []error {
 		errs = append(errs, ToEntry(m).GetErrors()...)
 	}
 
+	// An augment that was applied only now (its path leads through one of
+	// the inserted cases) may have added members to a choice: give these
+	// their cases as well.
+	for _, m := range ms.Modules {
+		ToEntry(m).FixChoice()
+	}
+	for _, m := range ms.SubModules {
+		ToEntry(m).FixChoice()
+	}
+
 	// The deviation statement is only valid under a module or submodule,
 	// which allows us to avoid having to process it within ToEntry, and
 	// rather we can just walk all modules and submodules *after* entries
